@@ -36,6 +36,19 @@ def tuple_ref_decider(tl, assignment):
     return decide
 
 
+def address_signature(b, an, blocks):
+    """the explicit server addresses built in (these blocks of) a body: {(variant, constants of each field)} over the
+    aggregates of the connection-address type"""
+    out = set()
+    for blk in b.blocks:
+        if blk.cleanup or (blocks is not None and blk.idx not in blocks):
+            continue
+        for s in blk.stmts:
+            if s.kind == 'assign' and s.rv.kind == 'agg' and s.rv.j.get('ak') == 'adt' and s.rv.j['adt'].endswith('::ConnectionAddr'):
+                out.add((s.rv.j['variant'],) + tuple(tuple(sorted(x[1] for x in sources(an, op, deep=True) if x[0] == 'const' and not x[1].startswith('fn'))) for op in s.rv.ops))
+    return out
+
+
 def run(ctx):
     prog = ctx.prog
     c = prog.crates.get('deadpool_redis')
@@ -96,6 +109,22 @@ def run(ctx):
                     ok = ok and fc in flds and fu not in flds and not defaults
                     what = 'only %s given -> exactly that source' % fc
                 ctx.ob('R19.1', '%s: %s' % (tag, what), ok, ctx.where(b), 'sources %s defaults=%s' % (sorted(flds), defaults), construct='%s:row:%s:%s' % (tag, vu, vc), sites=sorted(flds))
+        # sibling agreement: the server used when neither is named is the one `Config::default()` of this flavour names
+        dflt = prog.bodies.get('<%s as std::default::Default>::default' % cfg)
+        if dflt is None:
+            ctx.undecide('R19.1', '%s: Default for Config not found' % tag)
+        else:
+            ctx.saw(dflt)
+            rows = {}
+            for vu in ('None', 'Some'):
+                for vc in ('None', 'Some'):
+                    rows[(vu, vc)] = explore(an, tuple_ref_decider(tl, {iu: vu, ic: vc}))
+            own = set(rows[('None', 'None')]) - set().union(*[set(v) for k, v in rows.items() if k != ('None', 'None')])
+            sig_row = address_signature(b, an, own)
+            sig_def = address_signature(dflt, prog.an(dflt), None)
+            ctx.ob('R19.1', '%s: naming neither uses the server Config::default() names' % tag, sig_row == sig_def, ctx.where(b),
+                   'the (None, None) row builds %s, Default for Config builds %s: "the default local server" is two different servers' % (sorted(sig_row), sorted(sig_def)) if sig_row != sig_def else '',
+                   construct='%s:default-agreement' % tag, sites=sorted(map(str, sig_def)))
         # constructor errors propagate through `?`
         for x in news:
             nxt = [blk for blk in b.blocks if blk.term.kind == 'call' and not blk.cleanup and any(n.endswith('Try::branch') for n in blk.term.callee_names()) and
